@@ -18,6 +18,7 @@ CONSTANTS MaxEntries,  \* entries per namespace
           UseBlobs,    \* which contents (subset of MCAllBlobs)
           InPlace,     \* BOOLEAN: include modify_file_in_place (enabled after a reopen)
           Boot,        \* BOOLEAN: include add_eltorito / rm_eltorito / links to the boot catalog
+          Life,        \* BOOLEAN: lifecycle steps - close(), new() again on the same object, calls on a closed object
           CfgIds,      \* which configurations (indices into Cfgs)
           Modes,       \* consistency modes of the object: subset of {"lazy", "always"}
           Dump         \* "none" | "hist" | "edges"
@@ -111,12 +112,20 @@ Init == /\ st = Uninit
         /\ nref = 0
         /\ nsched = 0
 
-DoNew == /\ st.phase = "uninit" /\ h = <<>>
-         /\ \E c \in CfgIds, md \in Modes :
+Closed(hh) == \E i \in DOMAIN hh : hh[i].a = "Close" /\ "rej" \notin DOMAIN hh[i]
+DoNew == /\ st.phase = "uninit" /\ (h = <<>> \/ (Life /\ Len(h) <= MaxLen))
+         /\ \E c \in CfgIds, md \in (IF h = <<>> THEN Modes ELSE {h[1].mode}) :
+              \* (the consistency mode belongs to the object, not to the image: it survives close())
               LET a == [a |-> "New", cfg |-> Cfgs[c], mode |-> md] IN
               /\ st' = Step(st, a).acc
-              /\ h' = <<a>>
+              /\ h' = Append(h, a)
          /\ UNCHANGED <<nref, nsched>>
+
+\* close() ends the image; the object can be given a new one (at most one close per behaviour)
+DoClose == /\ Life /\ st.phase = "live" /\ Len(h) <= MaxLen /\ ~Closed(h)
+           /\ st' = Step(st, [a |-> "Close"]).acc
+           /\ h' = Append(h, [a |-> "Close"])
+           /\ UNCHANGED <<nref, nsched>>
 
 \* an accepted edit
 Accept == /\ st.phase = "live" /\ Len(h) <= MaxLen
@@ -129,9 +138,11 @@ Accept == /\ st.phase = "live" /\ Len(h) <= MaxLen
           /\ UNCHANGED <<nref, nsched>>
 
 \* a refused edit: one representative per (action name, reason)
-Reject == /\ st.phase = "live" /\ Len(h) <= MaxLen /\ nref < MaxRefuse
+LifeCands(s) == IF Life THEN {[a |-> "New", cfg |-> Cfgs[c], mode |-> s.mode] : c \in CfgIds} \cup {[a |-> "Close"]}
+                ELSE {}
+Reject == /\ (st.phase = "live" \/ (Life /\ st.phase = "uninit" /\ h # <<>>)) /\ Len(h) <= MaxLen /\ nref < MaxRefuse
           \* (\E over singleton sets binds evaluated values; a LET would be re-evaluated per use)
-          /\ \E cands \in {CandsOf(st)} :
+          /\ \E cands \in {CandsOf(st) \cup LifeCands(st)} :
              \E outc \in {[a \in cands |-> Step(st, a)]} :
              \E refused \in {{a \in cands : outc[a].out = "refuse"}} :
              \E k \in {<<a.a, outc[a].why>> : a \in refused} :
@@ -156,7 +167,7 @@ Reopen == /\ st.phase = "live" /\ Len(h) <= MaxLen /\ st.gen < MaxGen
           /\ \E same \in BOOLEAN : h' = Append(h, [a |-> "Reopen", same |-> same])
           /\ UNCHANGED <<nref, nsched>>
 
-Next == DoNew \/ Accept \/ Reject \/ Schedule \/ Reopen
+Next == DoNew \/ DoClose \/ Accept \/ Reject \/ Schedule \/ Reopen
 
 vars == <<st, h, nref, nsched>>
 Spec == Init /\ [][Next]_vars
